@@ -18,6 +18,8 @@ structure ModDecl where
   name : String
   parent : Option Nat
   pe : Nat
+  afn : Bool := false      -- built with AsyncFn::{new,failable,io}
+  wait : String := "recv"
 
 structure ChainDecl where
   name : String
@@ -50,7 +52,8 @@ def parseMods (body : List String) : List ModDecl := Id.run do
     | "mod" :: m :: rest =>
       if (modIdx ms m).isNone && !(m.contains '.') then
         let parent := (kv rest "parent").bind (modIdx ms)
-        ms := ms ++ [⟨m, parent, (kvNat rest "pe").getD 0⟩]
+        let afn := (kv rest "kind").isSome
+        ms := ms ++ [⟨m, parent, if afn then 0 else (kvNat rest "pe").getD 0, afn, (kv rest "wait").getD "recv"⟩]
     | _ => pure ()
   return ms
 
@@ -79,6 +82,7 @@ def parseTasks (ms : List ModDecl) (cs : List ChainDecl) (body : List String) : 
       match modIdx ms m with
       | none => pure ()
       | some mi =>
+        if (ms[mi]?.map (·.afn)).getD false then continue
         if ts.any (·.tag == t) then continue
         match rest with
         | ["sleep", _, _, j] => ts := ts ++ [⟨t, mi, fun s => .sleep s, true, j != "none", false⟩]
@@ -94,7 +98,8 @@ def parseTasks (ms : List ModDecl) (cs : List ChainDecl) (body : List String) : 
 def endEmits (ms : List ModDecl) (body : List String) : Nat :=
   (body.filter fun line =>
     match words line with
-    | "do" :: m :: "end" :: _ :: act :: _ => (modIdx ms m).isSome && (act == "send" || act == "sched")
+    | "do" :: m :: "end" :: _ :: act :: _ =>
+      ((modIdx ms m).bind fun i => ms[i]?.map (!·.afn)).getD false && (act == "send" || act == "sched")
     | _ => false).length
 
 def parseObjs (body : List String) : List Obj :=
@@ -172,6 +177,12 @@ def processCase (c : Case) : String := Id.run do
     | _ => none
   -- ---------------------------------------------------------------- description
   let aliveTasks := objs.filter fun o => o.kind == "task" && o.s == 0
+  let aliveCaps := objs.filter fun o => o.kind == "cap" && o.s == 0
+  let heldN := (kvNat stopL "held").getD 0
+  let aliveBodies0 := (objs.filter fun o => o.kind == "body" && o.s == 0).length
+  -- live bodies that are in none of the other places are unread messages of an AsyncFn `hold` task
+  let inboxN := min 8 (aliveBodies0 - (fes + queued + kept + heldN))
+  let firstHold := ms.findIdx? fun m => m.afn && m.wait == "hold" && aliveCaps.any (fun o => baseTag o.tag == m.name)
   let mut mods : List ModD := []
   let mut mi := 0
   let mut slotTotal := 0
@@ -186,7 +197,17 @@ def processCase (c : Case) : String := Id.run do
       if t.sleeps then slot := slot + 1
     slotTotal := slotTotal + slot
     let keptHere := if mi == 0 then List.replicate kept (⟨true, none⟩ : MsgD) else []
-    mods := mods ++ [⟨m.parent, m.pe, running, if running then tds else [], if running then slot else 0, keptHere⟩]
+    let capAlive := aliveCaps.any fun o => baseTag o.tag == m.name
+    let running := running || (started && capAlive)
+    let afn : Option AfnD :=
+      if m.afn && running then
+        let here := firstHold == some mi
+        let sleeping := if m.wait == "hold" && capAlive && heldN > 0 then some slot else none
+        some ⟨capAlive, sleeping, if here then List.replicate inboxN ⟨true, none⟩ else [],
+              if here then List.replicate heldN ⟨true, none⟩ else []⟩
+      else none
+    if afn.any (·.sleeping.isSome) then slot := slot + 1
+    mods := mods ++ [⟨m.parent, m.pe, running, if running then tds else [], if running then slot else 0, keptHere, afn⟩]
     mi := mi + 1
   let (gates, links) := wiring cs qs
   let firstChan := (links.findIdx? (·.chan)).getD 0
@@ -213,8 +234,9 @@ def processCase (c : Case) : String := Id.run do
   -- ---------------------------------------------------------------- acceptance rule on the counters
   let bad := objs.filter fun o => o.d != o.c || o.c != 1 || o.l != o.d
   let olate := (objs.filter fun o => o.l != o.d).map (·.kind)
-  let oleak := (objs.filter fun o => o.d < o.c).map (·.kind)
-  let odouble := (objs.filter fun o => o.d > o.c).map (·.kind)
+  let norm (k : String) : String := if k == "cap" then "task" else k
+  let oleak := (objs.filter fun o => o.d < o.c).map (norm ·.kind)
+  let odouble := (objs.filter fun o => o.d > o.c).map (norm ·.kind)
   let kinds := ["mod", "pe", "task", "body", "probe"]
   let nobjs := objs.length
   match bad.head? with
@@ -227,6 +249,10 @@ def processCase (c : Case) : String := Id.run do
     let explained := odouble.isEmpty && queued > 0 && kinds.all fun k => countKind oldLeak k == countKind oleak k
     let mper := mper ++ (if explained then "] tag=backlog-cycle old-code-model=[body=" ++ toString (countKind oldLeak "body") else "")
     -- does a panic hook that holds the globals (model variant `hookGlobals`) explain it?
+    -- does a task that captures its own module context (model variant `taskCtx`) explain it?
+    let ctxLeak := (leaked { d with taskCtx := true }).map kindOfNode
+    let ctxExplained := odouble.isEmpty && !ctxLeak.isEmpty && countKind ctxLeak "task" == countKind oleak "task"
+    let mper := mper ++ (if ctxExplained then "] tag=task-captures-ctx taskctx-model=[task=" ++ toString (countKind ctxLeak "task") else "")
     let hookLeak := (leaked { d with hookGlobals := true }).map kindOfNode
     let hookExplained := odouble.isEmpty && !hookLeak.isEmpty && kinds.all fun k => countKind hookLeak k == countKind oleak k
     let mper := mper ++ (if hookExplained then "] tag=hook-holds-globals hook-model=[mod=" ++ toString (countKind hookLeak "mod") else "")
@@ -250,8 +276,12 @@ def processCase (c : Case) : String := Id.run do
   let nMod := (objs.filter (·.kind == "mod")).length
   let nPe := (objs.filter (·.kind == "pe")).length
   let mPe := (ms.map (·.pe)).foldl (· + ·) 0
-  if nMod != ms.length || nPe != mPe then
-    return s!"fail {id} op=0 kind=diverge what=object-census model=mods:{ms.length},pe:{mPe} impl=mods:{nMod},pe:{nPe}"
+  let mMod := (ms.filter (!·.afn)).length
+  if nMod != mMod || nPe != mPe then
+    return s!"fail {id} op=0 kind=diverge what=object-census model=mods:{mMod},pe:{mPe} impl=mods:{nMod},pe:{nPe}"
+  let mCaps := (mods.filter fun m => m.afn.any (·.alive)).length
+  if mCaps != aliveCaps.length then
+    return s!"fail {id} op=0 kind=diverge what=asyncfn-task-census model={mCaps} impl={aliveCaps.length}"
   let mTasks := (mods.map (·.tasks.length)).foldl (· + ·) 0
   -- tasks alive in an inactive module whose script cannot panic: `shutdown` must have dropped them
   let canPanic (m : String) : Bool := c.body.any fun line =>
@@ -271,15 +301,15 @@ def processCase (c : Case) : String := Id.run do
   let aliveBodies := (objs.filter fun o => o.kind == "body" && o.s == 0).length
   -- a sender task that is due may still run (and send into the static buffer) inside `finish()`
   let senders := (aliveTasks.filter fun o => (ts.find? fun t => t.tag == baseTag o.tag).any (·.sends)).length
-  let room := fes + queued + kept + bufN + senders
+  let room := fes + queued + kept + bufN + senders + heldN + 8 * aliveCaps.length
   if started && aliveBodies > room then
     return s!"fail {id} op=0 kind=diverge what=bodies-outside-modelled-places alive={aliveBodies} fes={fes} queued={queued} kept={kept} buf={bufN}"
   -- `finish()` hands over the pending events, plus at most one wake-up per module scheduled by `at_sim_end`
   let rem := (kvNat finL "rem").getD 0
   if res == "ok" && (rem < fes || rem > fes + ms.length) then
     return s!"fail {id} op=0 kind=diverge what=remaining-vs-fes rem={rem} fes={fes}"
-  let nt := started && res != "panic" && (fes > 0 || queued > 0 || aliveTasks.length > 0 || res == "unwound")
-  return s!"ok {id} nt={if nt then 1 else 0} objs={nobjs} mods={ms.length} alivetasks={aliveTasks.length} queued={queued} pending={fes} alivebodies={aliveBodies} nodes={(nodesOf d).eraseDups.length} errend={if res == "err" then 1 else 0} nofinish={if res == "nofinish" then 1 else 0} unwound={if res == "unwound" then 1 else 0} rings={(cs.filter (·.ring)).length}"
+  let nt := started && res != "panic" && (fes > 0 || queued > 0 || aliveTasks.length > 0 || aliveCaps.length > 0 || res == "unwound")
+  return s!"ok {id} nt={if nt then 1 else 0} objs={nobjs} mods={ms.length} alivetasks={aliveTasks.length} asyncfn={aliveCaps.length} unread={inboxN} queued={queued} pending={fes} alivebodies={aliveBodies} nodes={(nodesOf d).eraseDups.length} errend={if res == "err" then 1 else 0} nofinish={if res == "nofinish" then 1 else 0} unwound={if res == "unwound" then 1 else 0} rings={(cs.filter (·.ring)).length}"
 
 def main (stdin : IO.FS.Stream) : IO Unit := do
   let cases ← readCases stdin
